@@ -118,6 +118,51 @@ def _work_values(task) -> core.Part:
     return p
 
 
+def _work_pairs(task) -> core.Part:
+    """Every pair of numeric elements of list 3 x small value/scaler alphabets (relations between two registers)."""
+    import itertools
+
+    sel, = task
+    p = core.Part()
+    base = layouts()["no_list3_3ph"]
+    numpos = [i for i, (_, c) in enumerate(base) if c[0] == "num"]
+    vals = {"u32": (0, 1, 999, 65536, 2**32 - 1), "i16": (-32768, -10, -1, 0, 1, 32767), "u16": (0, 1, 2300, 65535)}
+    pairs = list(itertools.combinations(numpos, 2))[sel::8]
+    for i, j in pairs:
+        for vi in vals[base[i][1][1]]:
+            for vj in vals[base[j][1][1]]:
+                for si, sj in ((0, 0), (-1, 1), (-3, -3), (2, -2)):
+                    items = list(base)
+                    items[i] = (base[i][0], ("num", base[i][1][1], vi, si, base[i][1][4]))
+                    items[j] = (base[j][0], ("num", base[j][1][1], vj, sj, base[j][1][4]))
+                    e = check_items(items)
+                    p.add("evaluations")
+                    p.add("nontrivial")
+                    if e:
+                        _report(p, items, e, f"elements {i},{j} = {vi}e{si}, {vj}e{sj}")
+                        if p.full("aidon"):
+                            return p
+    return p
+
+
+def _work_lattice(task) -> core.Part:
+    lo, hi = task
+    p = core.Part()
+    for hi16 in range(lo, hi):
+        for k in range(16):
+            val = (hi16 * 257 % 65536) * 65536 + (k * 4099 + hi16 * 7) % 65536
+            for scaler in (-3, -1, 0, 2):
+                items = [("1.0.1.8.0.255", ("num", "u32", val, scaler, WH))]
+                e = check_items(items)
+                p.add("evaluations")
+                p.add("nontrivial")
+                if e:
+                    _report(p, items, e, f"u32 register {val} scaler {scaler}")
+                    if p.full("aidon"):
+                        return p
+    return p
+
+
 def _work_text(task) -> core.Part:
     p = core.Part()
     texts = ["", "A", "AIDON_V0001", "7359992892587665", "x" * 255, "".join(chr(c) for c in range(0x20, 0x7F)), " lead", "trail ", "6525"]
@@ -151,10 +196,12 @@ def main(run: core.Run) -> int:
     vt += [(t, s, run.seed, (a, a + 4096)) for t in ("i16", "u16") for s in ((-1,) if q else cosemx.SCALERS) for a in range(0, 65536, 4096)]
     run.merge(par.pmap(_work_values, vt, seed=run.seed))
     run.merge(par.pmap(_work_text, [0], seed=run.seed))
+    run.merge(par.pmap(_work_pairs, [(i,) for i in range(8)], seed=run.seed))
+    run.merge(par.pmap(_work_lattice, [(a, a + 16) for a in range(0, 256 if q else 4096, 16)], seed=run.seed))
     tot = run.total
     tot.sample({"list": "no_list1", "body": RC.aidon_body(layouts()["no_list1"]).hex(), "expected": {"active_power_import": 280, "meter_manufacturer": "Aidon"}})
     tot.sample({"element": "i16 register -32768 scaler -1", "expected_value": -3276.8})
-    run.bounds = {"layouts": list(layouts()), "scalers": list(cosemx.SCALERS), "u32_values": len(cosemx.int_alphabet("u32", run.seed)), "i16_u16_complete_2^16_sweep_for_scalers": [-1] if q else list(cosemx.SCALERS)}
+    run.bounds = {"layouts": list(layouts()), "pairwise": "every pair of numeric elements of list 3 x value alphabets x 4 scaler pairs", "lattice": "u32 values spread over the whole range x 4 scalers", "scalers": list(cosemx.SCALERS), "u32_values": len(cosemx.int_alphabet("u32", run.seed)), "i16_u16_complete_2^16_sweep_for_scalers": [-1] if q else list(cosemx.SCALERS)}
     run.assumptions = ["reference encoders and the C.D.E -> name table in mc/ref/cosem.py (bound to the fixtures of tests/test_aidon.py)",
                        "32-bit registers are covered on boundaries and bit patterns, not on all 2^32 values"]
     ev = tot.c.get("evaluations", 0)
